@@ -84,7 +84,8 @@ def generate(seed, mode):
     nvals = 6
     vals = []
     for v in range(nvals):
-        vals.append({'eq': None, 'ret': w.choice(['made', 'made', 'made', 'made', 'none'])})
+        vals.append({'eq': None, 'ret': w.choice(['made', 'made', 'made', 'falsy', 'none'])})
+    vals[4]['falsy'] = True           # a registered value / factory / subscriber that is false in a boolean context
     vals.append({'eq': 'e', 'ret': 'made'})
     vals.append({'eq': 'e', 'ret': 'made'})
     if mode.get('raising_factories'):
@@ -202,6 +203,38 @@ class Boom(Exception):
     pass
 
 
+class Falsy:
+    """what a factory may legitimately return: an adapter that is false in a boolean context (empty container)"""
+
+    def __init__(self, *parts):
+        self.parts = parts
+
+    def __bool__(self):
+        return False
+
+    def __len__(self):
+        return 0
+
+    def __eq__(self, other):
+        return isinstance(other, Falsy) and self.parts == other.parts
+
+    def __ne__(self, other):
+        return not self.__eq__(other)
+
+    def __hash__(self):
+        return hash(self.parts)
+
+    def __repr__(self):
+        return 'Falsy%r' % (self.parts,)
+
+
+class Dflt:
+    """a default object handed to one call; it must come back by identity from that call and from no other"""
+
+    def __repr__(self):
+        return 'DFLT'
+
+
 def execute(program, ctx, mode):
     from zope.interface import (Interface, implementedBy, providedBy, classImplements, classImplementsOnly,
                                 directlyProvides, alsoProvides)
@@ -218,6 +251,10 @@ def execute(program, ctx, mode):
             self.n = n
             self.eq = spec.get('eq')
             self.ret = spec.get('ret', 'made')
+            self.falsy = bool(spec.get('falsy'))
+
+        def __bool__(self):
+            return not self.falsy
 
         def __eq__(self, other):
             return self is other or (self.eq is not None and getattr(other, 'eq', None) == self.eq)
@@ -234,10 +271,12 @@ def execute(program, ctx, mode):
                 return None
             if self.ret == 'raise':
                 raise Boom(self.n)
+            if self.ret == 'falsy':
+                return Falsy('made', self.n, *[olab(x) for x in objs])
             return ('made', self.n) + tuple(olab(x) for x in objs)
 
         def __repr__(self):
-            return 'V%d' % self.n
+            return 'V%d' % self.n if not self.falsy else 'V%d(falsy)' % self.n
 
     R = []
     for i, bs in enumerate(W['rifaces']):
@@ -615,9 +654,14 @@ def execute(program, ctx, mode):
                 # one entry point per cache family (single-required cache / lookupAll cache / subscriptions cache),
                 # each on its own fresh twin; the choice rotates with the probe so all nine get covered
                 for e in ((0, 1, 5, 6, 7)[salt % 5], (2, 3)[(salt >> 8) % 2], (4, 8)[(salt >> 12) % 2]):
-                    kind, a = safe_ask(regs, key, e)
-                    kind2, b = safe_ask(twin(), key, e)
-                    ctx.state('c05', kind, len(specs), a is None or a == [])
+                    da, db = Dflt(), Dflt()
+                    kind, a = safe_ask(regs, key, e, default=da)
+                    kind2, b = safe_ask(twin(), key, e, default=db)
+                    if a is da:
+                        a = 'the-default-of-this-call'
+                    if b is db:
+                        b = 'the-default-of-this-call'
+                    ctx.state('c05', kind, len(specs), a == 'the-default-of-this-call' or a == [])
                     if not same(a, b):
                         ctx.violation('C05', 'warm!=cold', 'C05|%s|warm!=cold|after-%s' % (kind, last_mut[0]),
                                       {'key': key, 'warm': repr(a), 'cold': repr(b), 'last_mutations': [repr(m[:2]) for m in mutlog[-4:]],
@@ -680,6 +724,9 @@ def execute(program, ctx, mode):
                         wexc = Boom
                     elif f.ret == 'made':
                         want = ('made', f.n) + tuple(olab(x) for x in objs)
+                    elif f.ret == 'falsy':
+                        want = Falsy('made', f.n, *[olab(x) for x in objs])
+                        ctx.fault('factory-falsy')
                 del calls[:]
                 try:
                     if kind == 'queryAdapter':
@@ -719,6 +766,8 @@ def execute(program, ctx, mode):
                         break
                     if s.ret == 'made':
                         want.append(('made', s.n) + tuple(olab(x) for x in objs))
+                    elif s.ret == 'falsy':
+                        want.append(Falsy('made', s.n, *[olab(x) for x in objs]))
                 if pi is None:
                     want = ()
                 if wexc is not None:
@@ -925,7 +974,8 @@ def execute(program, ctx, mode):
                 if not keys:
                     continue
                 key = keys[op['key'] % len(keys)]
-                kind, a = safe_ask(regs, key, op['e'] % len(ENTRIES))
+                # half of the history's lookups hand in a default object of their own (it must never be remembered)
+                kind, a = safe_ask(regs, key, op['e'] % len(ENTRIES), default=(Dflt() if (k >> 7) & 1 else None))
                 ctx.probe('ask-' + kind)
                 ctx.log(step, 'ask', kind, key['r'] % nR, [LK[x % len(LK)] for x in key['req']], key['p'] % (nP + 1), key['n'] % 3, a)
                 continue
